@@ -8,8 +8,8 @@ ID = "C02"
 _EXH = _q(32 * 10000, 32 * 10000 * 4 * 7)
 
 
-# a case takes ~30 microseconds; one that runs 20 s of wall time (80 s when reproduced alone) is a hang of Execute
-_TMO = ["--case_timeout", "20"]
+# a case takes ~30 microseconds; one that runs 5 s of wall time (20 s when reproduced alone) is a hang of Execute
+_TMO = ["--case_timeout", "5"]
 
 
 def _post(ctx):
